@@ -3,12 +3,16 @@ EXTENDS ShapefileMC, Json
 (* behaviour generator: a history variable over the design spec *)
 VARIABLE h
 CONSTANT EmitAll
+(* which rows the behaviours read for the geometry alone: the first of two, for about half of the two-record files (chosen by
+   the records, so that no behaviour is added) *)
+GeomOnlyHere == rrow = 0 /\ Len(file) >= 2 /\ (file[1].val + file[2].name) % 2 = 0
 GenInit == Init /\ h = <<>>
 GenNext == \/ \E k \in Kinds, a \in Apis : Create(k, a) /\ h' = Append(h, [op |-> "create", kind |-> k, api |-> a])
            \/ \E k \in Kinds : \E r \in Records[k] : Encode(r) /\ h' = Append(h, [op |-> "encode", r |-> r])
            \/ CloseW /\ h' = Append(h, [op |-> "close"])
            \/ OpenR /\ h' = Append(h, [op |-> "open"])
-           \/ DecodeRow /\ h' = Append(h, [op |-> "decode"])
+           \/ DecodeRow /\ ~GeomOnlyHere /\ h' = Append(h, [op |-> "decode"])
+           \/ DecodeGeom /\ GeomOnlyHere /\ h' = Append(h, [op |-> "decodeg"])
 GenSpec == GenInit /\ [][GenNext]_<<vars, h>>
 Emit == rstate = "done" => PrintT(ToJson([kind |-> "shp", ops |-> h]))
 =============================================================================
